@@ -64,4 +64,11 @@ def r6_norm_fresh(run, tree):
     cf.check_vector_norm_fresh(run, tree)
 
 
-RULES = [r6_norm_fresh, r1_axis_table, r2_constructor, r3_perpendicular, r4_handedness, r5_forms]
+def r7_map_call(run, tree):
+    run.rule("C18.R7", "map() asks for the basis with the caller's direction, the first layer, the window width and height (dy, or dx when dy is omitted) "
+             "in the spatial unit, and the origin", "D7 fold of plot/map.py::map with get_direction recorded", "", floor=4)
+    from . import map_folds as mf
+    mf.check_map_direction_call(run, tree)
+
+
+RULES = [r6_norm_fresh, r1_axis_table, r2_constructor, r3_perpendicular, r4_handedness, r5_forms, r7_map_call]
